@@ -8,7 +8,7 @@ import (
 func init() { checks["C18"] = checkC18 }
 
 func checkC18(rep *Report, rng *Rng, tier string) {
-	rep.Rule = "iterators: collection sizes n = 0..12 x every script of Next/Close commands up to length n+3 drawn from {stop after k Nexts then Close, exhaust, Close first, double Close, Next after Close} (thorough: all scripts over {N,C} up to length 7 for n <= 4), both value modes, memory-only and flushed+re-opened; after each script: results as expected, Next after Close/exhaustion false, the producer goroutine has exited (goroutine count back to its baseline within 3 s), the pinned version is released (refs accounting on the heap dump) and a following mutation proceeds; re-entrant callbacks: visitors that call every read operation (GetItem, Get, Exist, Min/Max, GetTotals, Len, names, a nested iterator, Snapshot+visit+Close) and, on the mutating goroutine, Set/Delete on the same and on another collection, with a watchdog for deadlocks, results compared with the version the visit started on; non-trivial = n >= 1"
+	rep.Rule = "iterators: collection sizes n = 0..12 x every script of Next/Close commands up to length n+3 drawn from {stop after k Nexts then Close, exhaust, Close first, double Close, Next after Close} (thorough: all scripts over {N,C} up to length 7 for n <= 4), both value modes, memory-only and flushed+re-opened; after each script: results as expected, Next after Close/exhaustion false, the producer goroutine has exited (goroutine count back to its baseline within 3 s), the pinned version is released (refs accounting on the heap dump) and a following mutation proceeds; re-entrant callbacks: visitors that call every read operation (GetItem, Get, Exist, Min/Max, GetTotals, Len, names, a nested iterator, Snapshot+visit+Close) and, on the mutating goroutine, Set/Delete on the same and on another collection and FlushRevert, with a watchdog for deadlocks, results compared with the version the visit started on; non-trivial = n >= 1"
 	evals := 0
 	run := func(ops []Op, file bool, what string) bool {
 		d := CfgDesc{Check: "C18", FileBacked: file, DumpEvery: true}
@@ -130,6 +130,12 @@ func checkC18(rep *Report, rng *Rng, tier string) {
 			ops = append(ops, Op{K: k, Name: "c", Key: tgt, WV: r.Chance(1, 2), N: stop})
 			if r.Chance(1, 3) {
 				ops = append(ops, Op{K: "flush"})
+			}
+			if file && r.Chance(1, 4) {
+				// FlushRevert from inside a visitor callback, then keep going on the reverted store
+				ops = append(ops, Op{K: "vrev", Name: "c", Key: []byte{}},
+					Op{K: "coll", Name: "c"}, Op{K: "coll", Name: "c-other"},
+					Op{K: "set", Name: "c", Key: []byte(fmt.Sprintf("k%02d", r.Intn(n+1))), Val: []byte("after-revert"), Prio: int32(r.Intn(1000))})
 			}
 		}
 		if run(ops, file, "re-entrant visitors") {
